@@ -159,6 +159,9 @@ type segReport struct {
 	St    segState              `json:"st"`
 	Want  map[string]AgentImage `json:"want"`
 	Pairs []pair                `json:"pairs"`
+	Restored map[string]sessView `json:"restored"` // the sessions right after Start(), before the segment's operations
+	Rows     []pvx.LinkRow       `json:"rows"`     // TS_Links at that moment
+	Stopped  bool                `json:"stopped"`  // the segment ended at a restart that is to be performed (operation Next-1)
 }
 
 // segmentChild: under the real Start(), apply the operations from cfg.From up to the next
@@ -175,18 +178,21 @@ func segmentChild(cfg childCfg, ts *server.Teamserver, say func(string)) {
 	}
 	r.req, r.lmod, r.lorig = cfg.St.Req+0x100, cfg.St.Lmod, cfg.St.Lorig
 	stop := false
-	r.restartFn = func() bool {
-		if !reopenable(w) {
+	r.restartFn = func(forced bool) bool {
+		if !forced && !reopenable(w) {
 			return false
 		}
 		stop = true
 		return true
 	}
 	rep := segReport{Next: len(cfg.H.Ops)}
+	rep.Restored = memView(w)
+	rep.Rows, _ = pvx.LinkRows(w.SQL)
 	for i := cfg.From; i < len(cfg.H.Ops); i++ {
 		r.apply(cfg.H.Ops[i])
 		if stop {
 			rep.Next = i + 1
+			rep.Stopped = true
 			break
 		}
 	}
@@ -277,9 +283,30 @@ func runC(h History, mode string) *core.Violation {
 	// the first segment runs in this process; at every effective restart the rest of the
 	// history moves to a new child process that runs the real Start() first
 	handover := -1
+	var pm *pmodel // histories with restarts at any point: the link structure is followed by the model of piv_test.go
+	if hasRestartX(h) {
+		pm = newPModel(len(h.Agents))
+	}
+	// pmTo advances the model over ops[from:to]; when restarted, ops[to-1] is the restart that was performed
+	pmTo := func(from, to int, restarted bool) {
+		if pm == nil {
+			return
+		}
+		no, yes := false, true
+		for i := from; i < to; i++ {
+			switch {
+			case i == to-1 && restarted:
+				pm.step(h.Ops[i], &yes)
+			case h.Ops[i].K == "restart" || h.Ops[i].K == "restartx":
+				pm.step(h.Ops[i], &no)
+			default:
+				pm.step(h.Ops[i], nil)
+			}
+		}
+	}
 	for i, op := range h.Ops {
-		if op.K == "restart" {
-			if reopenable(w) {
+		if op.K == "restart" || op.K == "restartx" {
+			if op.K == "restartx" || reopenable(w) {
 				handover = i + 1
 				break
 			}
@@ -288,6 +315,11 @@ func runC(h History, mode string) *core.Violation {
 		r.apply(op)
 	}
 	r.finish() // the restarted server binds its own ephemeral ports
+	if handover >= 0 {
+		pmTo(0, handover, true)
+	} else {
+		pmTo(0, len(h.Ops), false)
+	}
 
 	want := map[string]AgentImage{}
 	for _, a := range w.TS.Agents.Agents {
@@ -306,6 +338,22 @@ func runC(h History, mode string) *core.Violation {
 			break
 		}
 		nseg++
+		if pm != nil {
+			// the real Start() at the head of this segment: restored sessions and structure
+			var before []string
+			for id := range want {
+				before = append(before, id)
+			}
+			sort.Strings(before)
+			when := fmt.Sprintf("after the restart at operation %d (real Start())", handover-1)
+			if v := compareStructure(sr.Restored, before, wantView(h, pm.mem), when, rowsString(sr.Rows)); v != nil {
+				return v
+			}
+			if v := oneRowPerChild(sr.Rows, when); v != nil {
+				return v
+			}
+			pmTo(handover, sr.Next, sr.Stopped)
+		}
 		want, pairs, st = sr.Want, sr.Pairs, sr.St
 		r.lmod, r.lorig = st.Lmod, st.Lorig
 		handover = -1
@@ -360,7 +408,28 @@ func runC(h History, mode string) *core.Violation {
 	}
 	// (the recorded values themselves come from DB.AgentAll, which sub-check (a) compares field by field)
 	// structure among the restored sessions
+	if pm != nil {
+		gotV := map[string]sessView{}
+		for id, g := range got {
+			l := append([]string{}, g.Links...)
+			sort.Strings(l)
+			if len(l) == 0 {
+				l = nil
+			}
+			gotV[id] = sessView{Parent: g.Parent, Links: l}
+		}
+		rows, _ := pvx.LinkRows(w.SQL)
+		if v := compareStructure(gotV, ids, wantView(h, pm.afterRestart()), "after the final restart (real Start())", rowsString(rows)); v != nil {
+			return v
+		}
+		if v := oneRowPerChild(rows, "at the end of the history"); v != nil {
+			return v
+		}
+	}
 	for _, id := range ids {
+		if pm != nil {
+			break
+		}
 		wantParent := ""
 		wantKids := []string{}
 		for _, p := range pairs {
@@ -467,6 +536,9 @@ func runC(h History, mode string) *core.Violation {
 
 func genC(t *rapid.T) History {
 	var h History
+	if rapid.IntRange(0, 3).Draw(t, "pivot-trees") == 0 {
+		return genPivotHistory(t, 5, 8) // piv_test.go (every restart is a child process here: shorter histories)
+	}
 	h.Agents = genAgents(t, 1, 4)
 	h.DB = rapid.SampledFrom([]string{"fresh", "existed", "golden"}).Draw(t, "db")
 	nreg := rapid.IntRange(1, len(h.Agents)).Draw(t, "nreg")
@@ -492,7 +564,7 @@ func TestC10c(t *testing.T) {
 	}
 	core.Run(t, core.Spec[History]{
 		Property: "C10", Sub: "c",
-		Rule: "histories as in (a) (1-4 agents, 0-16 operations, one third of the listener adds HTTP on ephemeral ports) plus restart operations in the middle and the crafted update / re-registration families; the first segment is applied in-process, at every effective restart the rest of the history moves to a NEW child process that first runs the real (*Teamserver).Start() on the directory and then applies the following operations to that server (extra.segments_under_real_start); finally a child process runs the real (*Teamserver).Start() on the same directory and reports its sessions (25 recorded values, key, IV, Parent, Links) and its listeners (handlers.HTTPConfig / SMBConfig / ExternalConfig as started). Oracle: restarted state == state of the server before the restart: same active sessions and values, same parent/child structure among them (no nil entries), same listeners with every operator-configured field (Hosts, HostBind, HostRotation, PortBind, PortConn, UserAgent, Headers, Uris, HostHeader, Secure, Proxy; PipeName; Endpoint). Non-trivial as in (a)",
+		Rule: "histories as in (a) (1-4 agents, 0-16 operations, one third of the listener adds HTTP on ephemeral ports) plus restart operations in the middle and the crafted update / re-registration families; the first segment is applied in-process, at every effective restart the rest of the history moves to a NEW child process that first runs the real (*Teamserver).Start() on the directory and then applies the following operations to that server (extra.segments_under_real_start); finally a child process runs the real (*Teamserver).Start() on the same directory and reports its sessions (25 recorded values, key, IV, Parent, Links) and its listeners (handlers.HTTPConfig / SMBConfig / ExternalConfig as started). Oracle: restarted state == state of the server before the restart: same active sessions and values, same parent/child structure among them (no nil entries), same listeners with every operator-configured field (Hosts, HostBind, HostRotation, PortBind, PortConn, UserAgent, Headers, Uris, HostHeader, Secure, Proxy; PipeName; Endpoint). Non-trivial as in (a) ADDED: a quarter of the histories are pivot-tree histories with restarts at any point as in (a) (3-5 agents, 3-8 events): every restartx hands the rest of the history to a new child process under the real Start(); each child reports the sessions, Parent and Links it holds right after Start() and the rows of TS_Links, which are compared with the sessions active before that restart and the model of the link events; the final real restart is compared in the same way (signatures any-point-restart|..., links|two-rows-for-one-child)",
 		Gen:   genC, Check: checkC, Classify: classifyH,
 		Assumptions: []string{
 			"the restarted server is observed through its exported fields (Agents, Listeners) once Start() has appended the profile event, its last action before blocking",
